@@ -48,9 +48,43 @@ fn io_point(kind: &'static str) {
 }
 static SEEN_ANY: AtomicUsize = AtomicUsize::new(0);
 static EVENTS: Mutex<Vec<String>> = Mutex::new(Vec::new());
+/// absolute paths the code under test created outside the run's tree while the monitor was armed
+/// (undone at the end of the run so that a replay starts from the same outside world)
+static CREATED: Mutex<Vec<(String, bool)>> = Mutex::new(Vec::new());
 
 pub fn arm(on: bool) {
     ARMED.store(on, Ordering::SeqCst);
+}
+
+fn note_created(path: *const c_char, is_dir: bool) {
+    if !ARMED.load(Ordering::SeqCst) || path.is_null() {
+        return;
+    }
+    let p = unsafe { CStr::from_ptr(path) }.to_string_lossy().to_string();
+    if p.starts_with('/') {
+        if let Ok(mut c) = CREATED.try_lock() {
+            if c.len() < 64 {
+                c.push((p, is_dir));
+            }
+        }
+    }
+}
+
+fn exists(path: *const c_char) -> bool {
+    let mut st: libc::stat = unsafe { std::mem::zeroed() };
+    unsafe { libc::syscall(libc::SYS_newfstatat, libc::AT_FDCWD, path, &mut st as *mut libc::stat, libc::AT_SYMLINK_NOFOLLOW) == 0 }
+}
+
+/// remove what the run created at absolute paths (best effort, newest first)
+pub fn undo_outside_creations() {
+    let list = CREATED.lock().map(|mut c| std::mem::take(&mut *c)).unwrap_or_default();
+    for (p, is_dir) in list.into_iter().rev() {
+        if let Ok(c) = std::ffi::CString::new(p) {
+            unsafe {
+                libc::syscall(libc::SYS_unlinkat, libc::AT_FDCWD, c.as_ptr(), if is_dir { libc::AT_REMOVEDIR } else { 0 });
+            }
+        }
+    }
 }
 
 pub fn take_events() -> Vec<String> {
@@ -82,6 +116,9 @@ fn is_mutating_open(flags: c_int) -> bool {
 pub unsafe extern "C" fn open64(path: *const c_char, flags: c_int, mode: mode_t) -> c_int {
     if is_mutating_open(flags) {
         record("open_for_write", path, &format!(" flags={:#x}", flags));
+        if flags & libc::O_CREAT != 0 && !exists(path) {
+            note_created(path, false);
+        }
     }
     io_point("open");
     libc::syscall(libc::SYS_openat, libc::AT_FDCWD, path, flags | libc::O_LARGEFILE, mode as c_int) as c_int
@@ -151,6 +188,9 @@ pub unsafe extern "C" fn renameat(fd1: c_int, from: *const c_char, fd2: c_int, t
 #[no_mangle]
 pub unsafe extern "C" fn mkdir(path: *const c_char, mode: mode_t) -> c_int {
     record("mkdir", path, "");
+    if !exists(path) {
+        note_created(path, true);
+    }
     libc::syscall(libc::SYS_mkdirat, libc::AT_FDCWD, path, mode as c_int) as c_int
 }
 
@@ -163,6 +203,9 @@ pub unsafe extern "C" fn mkdirat(dirfd: c_int, path: *const c_char, mode: mode_t
 #[no_mangle]
 pub unsafe extern "C" fn symlink(target: *const c_char, linkpath: *const c_char) -> c_int {
     record("symlink", linkpath, "");
+    if !exists(linkpath) {
+        note_created(linkpath, false);
+    }
     libc::syscall(libc::SYS_symlinkat, target, libc::AT_FDCWD, linkpath) as c_int
 }
 
